@@ -175,6 +175,76 @@ enum UriKind {
 }
 const URIS: [UriKind; 4] = [UriKind::Origin, UriKind::AbsSame, UriKind::AbsOther, UriKind::AbsDefaultPort];
 
+
+/// The C14 judgement of one request, shared by the layer-over-a-probe leg and the loopback-TCP leg.
+#[allow(clippy::too_many_arguments)]
+fn judge_request(rep: &Reporter, prefix: &str, list: &[&'static str], entries: &[Option<RAuth>], hv: &[u8], mult: usize, uk: UriKind, uri: &str, uri_p: &http::Uri, status: u16, called: usize) -> (&'static str, serde_json::Value) {
+	let hstr = std::str::from_utf8(hv).ok();
+	// candidate authorities per reference
+	let hdr_auth = if mult == 1 { hstr.and_then(ref_parse) } else { None };
+	// the target's authority is read both with and without its scheme (the statement does not say whether the
+	// target's scheme makes an explicit :80/:443 "default"); either reading justifies an admission
+	let uri_auth = uri_p.authority().and_then(|a| ref_parse(a.as_str()));
+	let uri_auth_s = uri_p.authority().map(|a| format!("{}://{}", uri_p.scheme_str().unwrap_or("http"), a.as_str())).and_then(|s| ref_parse(&s));
+	let cands: Vec<&RAuth> = hdr_auth.iter().chain(uri_auth.iter()).chain(uri_auth_s.iter()).collect();
+	let hdr_clean = hstr.map_or(false, |s| !s.contains("://") && !s.contains(|c| c == '/' || c == '?' || c == '#'))
+		&& hdr_auth.as_ref().map_or(false, |h| h.plain && !h.userinfo && h.port != RPort::Any);
+	let differs = |h: &RAuth| [&uri_auth, &uri_auth_s].iter().all(|u| u.as_ref().map_or(false, |u| h.host != u.host || h.port != u.port));
+	let matched = |a: &RAuth| entries.iter().flatten().any(|e| entry_matches(e, a));
+	let case = json!({"engine":"ENUM","allow_list": list, "host_header": String::from_utf8_lossy(hv), "host_headers_sent": mult, "uri": uri, "status": status, "probe_calls": called});
+	let feat = |a: Option<&RAuth>| match a {
+		Some(a) if a.userinfo => "userinfo",
+		Some(a) if a.port == RPort::Any => "request-port-star",
+		Some(_) => "plain",
+		None => "unparsed",
+	};
+	let mut class = "rejected";
+	if called > 1 {
+		rep.violation(&format!("{prefix}probe-called-twice"), "inner service called more than once", case.clone());
+	}
+	if called == 1 {
+		class = "admitted";
+		if status != 200 {
+			rep.violation(&format!("{prefix}admitted-but-status"), &format!("inner service called but status {status}"), case.clone());
+		}
+		if !cands.iter().any(|a| matched(a)) {
+			rep.violation(
+				&format!("{prefix}admitted-without-match:{}:{:?}", feat(hdr_auth.as_ref().or(uri_auth.as_ref())), uk),
+				&format!("allow-list {:?}: request with Host {:?} (×{mult}) target {uri} reached the inner service although no entry matches", list, String::from_utf8_lossy(hv)),
+				case.clone(),
+			);
+		}
+		// disagreeing, individually valid, plain authorities must not be admitted
+		if let (Some(h), Some(_)) = (&hdr_auth, &uri_auth) {
+			if hdr_clean && differs(h) {
+				rep.violation(&format!("{prefix}admitted-with-disagreeing-authorities"), &format!("Host {:?} and target {uri} disagree but the request was admitted", String::from_utf8_lossy(hv)), case.clone());
+			}
+		}
+	} else {
+		if status != 403 && status != 400 {
+			rep.violation(&format!("{prefix}rejected-with-wrong-status"), &format!("inner service not called but status is {status}"), case.clone());
+		}
+		if let (Some(h), Some(u)) = (&hdr_auth, &uri_auth) {
+			if hdr_clean && differs(h) && status != 400 && matched(h) && matched(u) {
+				rep.violation(&format!("{prefix}disagreeing-authorities-not-400"), &format!("Host {:?} vs target {uri}: status {status}, expected 400", String::from_utf8_lossy(hv)), case.clone());
+			}
+		}
+		// completeness: single entry, one plain header without userinfo that matches, origin-form target
+		if list.len() == 1 && mult == 1 && uk == UriKind::Origin {
+			if let Some(h) = &hdr_auth {
+				if hdr_clean && matched(h) {
+					rep.violation(
+						&format!("{prefix}matching-authority-rejected"),
+						&format!("allow-list {:?}: Host {:?} matches the only entry but got {status}", list, String::from_utf8_lossy(hv)),
+						case.clone(),
+					);
+				}
+			}
+		}
+	}
+	(class, case)
+}
+
 pub fn check(rep: &Reporter) {
 	rep.set_rule(&format!(
 		"allow-lists = all lists of 1 or 2 entries (both orders; thorough: also every 3-entry combination) over {} patterns (those HostFilterLayer::new accepts) × Host header strings = {} schemes × {} hosts × {} userinfo forms × {} port forms, plus control/non-ASCII values × header multiplicity {{1, 0, 2}} × request-target {{origin form, absolute same authority, absolute other authority, absolute with explicit default port}}. Oracle: independent RFC-3986 authority split + label/port matcher written from the statement; a case is non-trivial when the layer was actually invoked (header constructible); distinct by (list, header, multiplicity, target).",
@@ -276,68 +346,7 @@ pub fn check(rep: &Reporter) {
 				};
 				let status = resp.status().as_u16();
 				let called = calls.load(Ordering::SeqCst);
-				// candidate authorities per reference
-				let hdr_auth = if mult == 1 { hstr.and_then(ref_parse) } else { None };
-				// the target's authority is read both with and without its scheme (the statement does not say whether the
-				// target's scheme makes an explicit :80/:443 "default"); either reading justifies an admission
-				let uri_auth = uri_p.authority().and_then(|a| ref_parse(a.as_str()));
-				let uri_auth_s = uri_p.authority().map(|a| format!("{}://{}", uri_p.scheme_str().unwrap_or("http"), a.as_str())).and_then(|s| ref_parse(&s));
-				let cands: Vec<&RAuth> = hdr_auth.iter().chain(uri_auth.iter()).chain(uri_auth_s.iter()).collect();
-				let hdr_clean = hstr.map_or(false, |s| !s.contains("://") && !s.contains(|c| c == '/' || c == '?' || c == '#'))
-					&& hdr_auth.as_ref().map_or(false, |h| h.plain && !h.userinfo && h.port != RPort::Any);
-				let differs = |h: &RAuth| [&uri_auth, &uri_auth_s].iter().all(|u| u.as_ref().map_or(false, |u| h.host != u.host || h.port != u.port));
-				let matched = |a: &RAuth| entries.iter().flatten().any(|e| entry_matches(e, a));
-				let case = json!({"engine":"ENUM","allow_list": lists[li], "host_header": String::from_utf8_lossy(hv), "host_headers_sent": mult, "uri": uri, "status": status, "probe_calls": called});
-				let feat = |a: Option<&RAuth>| match a {
-					Some(a) if a.userinfo => "userinfo",
-					Some(a) if a.port == RPort::Any => "request-port-star",
-					Some(_) => "plain",
-					None => "unparsed",
-				};
-				let mut class = "rejected";
-				if called > 1 {
-					rep.violation("probe-called-twice", "inner service called more than once", case.clone());
-				}
-				if called == 1 {
-					class = "admitted";
-					if status != 200 {
-						rep.violation("admitted-but-status", &format!("inner service called but status {status}"), case.clone());
-					}
-					if !cands.iter().any(|a| matched(a)) {
-						rep.violation(
-							&format!("admitted-without-match:{}:{:?}", feat(hdr_auth.as_ref().or(uri_auth.as_ref())), uk),
-							&format!("allow-list {:?}: request with Host {:?} (×{mult}) target {uri} reached the inner service although no entry matches", lists[li], String::from_utf8_lossy(hv)),
-							case.clone(),
-						);
-					}
-					// disagreeing, individually valid, plain authorities must not be admitted
-					if let (Some(h), Some(_)) = (&hdr_auth, &uri_auth) {
-						if hdr_clean && differs(h) {
-							rep.violation("admitted-with-disagreeing-authorities", &format!("Host {:?} and target {uri} disagree but the request was admitted", String::from_utf8_lossy(hv)), case.clone());
-						}
-					}
-				} else {
-					if status != 403 && status != 400 {
-						rep.violation("rejected-with-wrong-status", &format!("inner service not called but status is {status}"), case.clone());
-					}
-					if let (Some(h), Some(u)) = (&hdr_auth, &uri_auth) {
-						if hdr_clean && differs(h) && status != 400 && matched(h) && matched(u) {
-							rep.violation("disagreeing-authorities-not-400", &format!("Host {:?} vs target {uri}: status {status}, expected 400", String::from_utf8_lossy(hv)), case.clone());
-						}
-					}
-					// completeness: single entry, one plain header without userinfo that matches, origin-form target
-					if lists[li].len() == 1 && mult == 1 && uk == UriKind::Origin {
-						if let Some(h) = &hdr_auth {
-							if hdr_clean && matched(h) {
-								rep.violation(
-									"matching-authority-rejected",
-									&format!("allow-list {:?}: Host {:?} matches the only entry but got {status}", lists[li], String::from_utf8_lossy(hv)),
-									case.clone(),
-								);
-							}
-						}
-					}
-				}
+				let (class, case) = judge_request(rep, "", &lists[li], entries, hv, mult, uk, &uri, &uri_p, status, called);
 				local.case_unique(&format!("{class}:{status}"));
 				if i % 20011 == 3 && mult == 1 && uk == UriKind::Origin {
 					rep.sample(case);
